@@ -157,13 +157,18 @@ class _Img(object):
 
 
 class _Merger(object):
+    """Stands for LayerMerger: same public attributes (layers, cacheable), records what was added."""
     def __init__(self):
-        self.added = []
+        self.layers = []
         self.cacheable = True
         self.lock = threading.Lock()
 
+    @property
+    def added(self):
+        return [getattr(img, 'ident', -2) for img, _ in self.layers]
+
     def add(self, img, coverage=None):
-        self.added.append(getattr(img, 'ident', -2))
+        self.layers.append((img, coverage))
 
 
 def run_render(items, delays, pool_size, raise_source_errors):
@@ -270,12 +275,24 @@ def run(ctx):
 
     nr = ctx.n(60, 400)
     rr_terms, rr_descr, rc_terms, rc_descr = [], [], [], []
-    for c in range(nr):
-        n = rng.choice([1, 2, 2, 3, 4, 5])
-        ps = rng.choice([1, 2, 2, 3, 5])
-        items = gen_items(rng, n, allow_fail=(c % 4 != 0))
-        delays = [rng.choice([0.0, 0.002, 0.006, 0.012]) for _ in range(n)]
-        raise_mode = c % 2 == 0
+    directed = []
+    for ps in (1, 3):
+        for its in ([('exc', 100), ('blank', -1)], [('blank', -1), ('exc', 101)], [('blank', -1), ('exc', 101), ('blank', -1)],
+                    [('exc', 100), ('exc', 101)], [('ok', 10), ('exc', 101), ('blank', -1)], [('exc', 100)], [('blank', -1)]):
+            directed.append((ps, its))
+    for c in range(nr + len(directed)):
+        if c < len(directed):
+            ps, items = directed[c]
+            items = list(items)
+            n = len(items)
+            delays = [0.004 * ((k * 2) % n) for k in range(n)]
+            raise_mode = False
+        else:
+            n = rng.choice([1, 2, 2, 3, 4, 5])
+            ps = rng.choice([1, 2, 2, 3, 5])
+            items = gen_items(rng, n, allow_fail=(c % 4 != 0))
+            delays = [rng.choice([0.0, 0.002, 0.006, 0.012]) for _ in range(n)]
+            raise_mode = c % 2 == 0
         st, res = with_timeout(run_render, (items, delays, ps, raise_mode))
         if st != 'ok':
             ctx.fail('consumer=render_%s,%s' % ('raise' if raise_mode else 'capture', 'hang' if st == 'hang' else 'unexpected-exception'),
@@ -307,6 +324,12 @@ def run(ctx):
                 ctx.fail('consumer=render_capture,swallowed', 'non-source exception %r not re-raised (raised %r)' % (hard, raised), rep)
             elif hard is None and [a for a in added if a != -2] != want:
                 ctx.fail('consumer=render_capture,lost-or-reordered', 'merger received %r for layers %r' % (added, want), rep)
+            elif hard is None and fe is not None and raised is None and added[-1:] != [-2]:
+                # some layer failed with a SourceError, the request was answered: the failure must be visible
+                ctx.fail('consumer=render_capture,source-error-swallowed', 'layer failure %r neither raised nor reported '
+                         '(no message image on top; merger received %r)' % (fe, added), rep)
+            elif hard is None and fe is not None and not any(k != 'exc' for k, _ in items) and raised != -1:
+                ctx.fail('consumer=render_capture,source-error-swallowed', 'every layer failed but the request was answered (raised %r)' % (raised,), rep)
         arrival = sorted(range(n), key=lambda i: (delays[i], i))
         term = '(%d%%nat, %s, %s, (%s, %s))' % (min(ps, n), llit(items, vlit), llit(arrival, lambda a: '%d%%nat' % a),
                                                llit(added), olit(raised))
@@ -315,10 +338,276 @@ def run(ctx):
     ctx.corr_check('render_raise', 'Pool PoolSync', 'nat * list val * list nat * (list Z * option Z)', rr_terms,
                    "fun c => let '(ps, items, arr, out) := c in let r := render_raise ps items arr 1 in "
                    "zlist_eqb (fst r) (fst out) && oz_eqb (snd r) (snd out)", lambda i: rr_descr[i])
+    run_query_sources(ctx)
+    run_bulk_io(ctx)
     ctx.corr_check('render_capture', 'Pool PoolSync', 'nat * list val * list nat * (list Z * option Z)', rc_terms,
                    "fun c => let '(ps, items, arr, out) := c in let r := render_capture ps items arr 1 in "
                    "oz_eqb (snd r) (snd out) && match snd out with Some _ => true | None => zlist_eqb (fst (fst r)) (fst out) end",
                    lambda i: rc_descr[i])
+
+
+# ---------------------------------------------------------------- TileCreator._query_sources
+
+class _FakeMgr(object):
+    def __init__(self, sources, image_opts):
+        self.cache = None
+        self.sources = sources
+        self.grid = None
+        self.meta_grid = None
+        self.image_opts = image_opts
+
+
+def query_sources_recorded(items, delays):
+    """The real TileCreator._query_sources over len(items) mock sources (coverage of source k is an object tagged k)
+    with a recording image merger.  Returns (pairs (image id, coverage tag) as handed to the merger, raised id)."""
+    from mapproxy.cache.tile import TileCreator
+    from mapproxy.layer import BlankImage, MapQuery
+    from mapproxy.source import SourceError
+    from mapproxy.srs import SRS
+
+    class Cov(object):
+        clip = False
+
+        def __init__(self, k):
+            self.k = k
+
+    class Src(object):
+        def __init__(self, k):
+            self.k = k
+            self.coverage = Cov(k)
+
+        def get_map(self, query):
+            time.sleep(delays[self.k])
+            kind, v = items[self.k]
+            if kind == 'blank':
+                raise BlankImage()
+            if kind == 'exc':
+                if v >= 1000:
+                    raise Hard(v)
+                raise SourceError('S%d' % v)
+            return _Img(v)
+
+    class Rec(object):
+        def __init__(self):
+            self.pairs = []
+            self.merged = False
+
+        def add(self, img, coverage=None):
+            self.pairs.append((getattr(img, 'ident', -999), getattr(coverage, 'k', -999)))
+
+        def merge(self, **kw):
+            self.merged = True
+            return 'merged'
+
+    rec = Rec()
+    creator = TileCreator(_FakeMgr([Src(k) for k in range(len(items))], None), image_merger=rec)
+    query = MapQuery((0, 0, 10, 10), (20, 20), SRS(4326), 'png')
+    raised = None
+    try:
+        creator._query_sources(query)
+    except SourceError as ex:
+        raised = int(str(ex.args[0])[1:])
+    except Hard as ex:
+        raised = ex.ident
+    return rec.pairs, raised
+
+
+def query_sources_pixels(items, delays):
+    """The same with the real LayerMerger: source k delivers a full-size image of colour k and has the clipping
+    coverage 'vertical strip k'.  Returns the colour found in the middle of every strip (None = transparent)."""
+    from mapproxy.cache.tile import TileCreator
+    from mapproxy.image import ImageSource
+    from mapproxy.image.opts import ImageOptions
+    from mapproxy.layer import BlankImage, MapQuery
+    from mapproxy.srs import SRS
+    from mapproxy.util.coverage import BBOXCoverage
+    from PIL import Image
+    n = len(items)
+    opts = ImageOptions(format='image/png', transparent=True)
+
+    class Src(object):
+        def __init__(self, k):
+            self.k = k
+            self.coverage = BBOXCoverage((10.0 * k, 0, 10.0 * (k + 1), 10), SRS(4326), clip=True)
+
+        def get_map(self, query):
+            time.sleep(delays[self.k])
+            kind, v = items[self.k]
+            if kind == 'blank':
+                raise BlankImage()
+            return ImageSource(Image.new('RGBA', query.size, (40 * (self.k + 1), v, 0, 255)), image_opts=opts)
+
+    creator = TileCreator(_FakeMgr([Src(k) for k in range(n)], opts))
+    query = MapQuery((0, 0, 10.0 * n, 10), (20 * n, 20), SRS(4326), 'png')
+    img = creator._query_sources(query)
+    if img is None:
+        return [None] * n
+    im = img.as_image().convert('RGBA')
+    out = []
+    for k in range(n):
+        px = im.getpixel((20 * k + 10, 10))
+        out.append(None if px[3] == 0 else px[:3])
+    return out
+
+
+def run_query_sources(ctx):
+    rng = ctx.rng
+    terms, descr = [], []
+    cases = []
+    for its in ([('blank', -1), ('ok', 11)], [('blank', -1), ('ok', 11), ('ok', 12)], [('ok', 10), ('blank', -1), ('ok', 12)],
+                [('blank', -1), ('blank', -1), ('ok', 12), ('ok', 13)], [('ok', 10)], [('blank', -1)], [('exc', 100)],
+                [('ok', 10), ('exc', 101), ('ok', 12)]):
+        n = len(its)
+        cases.append((list(its), [0.004 * ((k * 2 + 1) % n) for k in range(n)]))
+    for c in range(ctx.n(30, 200)):
+        n = rng.choice([1, 2, 3, 3, 4, 6])
+        items = gen_items(rng, n, allow_fail=False)
+        if c % 3 == 0:       # at most one failing source: which exception is raised does then not depend on the order
+            items[rng.randrange(n)] = ('exc', rng.choice([100, 1000]) + rng.randrange(50))
+        cases.append((items, [rng.choice([0.0, 0.002, 0.006, 0.012]) for _ in range(n)]))
+    for items, delays in cases:
+        st, res = with_timeout(query_sources_recorded, (items, delays))
+        rep = {'consumer': 'TileCreator._query_sources', 'source_outcomes': items, 'delays': delays}
+        if st != 'ok':
+            ctx.fail('consumer=query_sources,' + ('hang' if st == 'hang' else 'unexpected-exception'),
+                     '_query_sources did not terminate' if st == 'hang' else '_query_sources raised %r' % (res,), rep)
+            continue
+        pairs, raised = res
+        rep.update({'merger_received (image, coverage of source)': pairs, 'raised': raised})
+        ctx.case(('query_sources', tuple(items), tuple(delays)), len(items) > 1, rep)
+        ctx.count('consumer=query_sources')
+        fe = spec_first_exc(items)
+        want = [(v, k) for k, (kind, v) in enumerate(items) if kind == 'ok']
+        if fe is not None:
+            if raised is None:
+                ctx.fail('consumer=query_sources,swallowed', 'source failure %r not raised' % fe, rep)
+            elif raised != fe:
+                ctx.fail('consumer=query_sources,wrong-exception', 'raised %r, the failing source raised %r' % (raised, fe), rep)
+        elif raised is not None:
+            ctx.fail('consumer=query_sources,spurious-raise', 'raised %r although no source failed' % raised, rep)
+        elif any(k != i for i, k in pairs if (i, k) not in want) or pairs != want:
+            bad = [p_ for p_ in pairs if p_ not in want]
+            ctx.fail('consumer=query_sources,' + ('foreign-coverage' if bad else 'lost-or-reordered'),
+                     'merger received %r, expected each image with the coverage of its own source in source order: %r' % (pairs, want), rep)
+        arrival = sorted(range(len(items)), key=lambda i: (delays[i], i))
+        terms.append('(%s, %s, (%s, %s))' % (llit(items, vlit), llit(arrival, lambda a: '%d%%nat' % a),
+                                             llit(pairs, lambda p_: '(%s, %d%%nat)' % (zlit(p_[0]), p_[1])), olit(raised)))
+        descr.append(rep)
+        if fe is None and len(items) > 1 and any(k == 'ok' for k, _ in items):
+            st, px = with_timeout(query_sources_pixels, (items, delays))
+            if st != 'ok':
+                ctx.problem('harness', 'query_sources_pixels: %s %r' % (st, px))
+                continue
+            wantpx = [((40 * (k + 1), v, 0) if kind == 'ok' else None) for k, (kind, v) in enumerate(items)]
+            ctx.count('consumer=query_sources_pixels')
+            if px != wantpx:
+                ctx.fail('consumer=query_sources,foreign-coverage', 'merged image: strip colours %r, expected %r (an image was '
+                         'clipped with the coverage of another source, lost or misplaced)' % (px, wantpx),
+                         dict(rep, strips=px, expected_strips=wantpx))
+    ctx.corr_check('query_sources', 'Pool PoolSync', 'list val * list nat * (list (Z * nat) * option Z)', terms,
+                   "fun c => let '(items, arr, out) := c in let r := query_sources items arr 1 in "
+                   "pairs_eqb (fst r) (fst out) && oz_eqb (snd r) (snd out)", lambda i: descr[i])
+
+
+# ---------------------------------------------------------------- bulk loads / stores of the S3 and Azure caches
+
+def bulk_io_run(backend, op, items, delays, conc):
+    """S3Cache / AzureBlobCache.load_tiles / store_tiles with the per-tile call replaced by a fake bucket access
+    (no boto3 / azure needed: __init__ is skipped).  Returns (return value, calls finished AT RETURN, raised id)."""
+    from mapproxy.cache.tile import TileCollection
+    if backend == 's3':
+        from mapproxy.cache.s3 import S3Cache as Base
+    else:
+        from mapproxy.cache.azureblob import AzureBlobCache as Base
+    finished = []
+
+    def access(tile):
+        k = tile.coord[0]
+        time.sleep(delays[k])
+        kind, v = items[k]
+        if kind == 'exc':
+            finished.append(k)
+            raise Hard(v)
+        if kind == 'ok':
+            tile.source = 'image-%d' % v
+        finished.append(k)
+        return kind == 'ok'
+
+    class Fake(Base):
+        def __init__(self):
+            self.coverage = None
+            self._concurrent_writer = conc
+            self._concurrent_reader = conc
+
+        def load_tile(self, tile, with_metadata=True, dimensions=None):
+            return access(tile)
+
+        def store_tile(self, tile, dimensions=None):
+            return access(tile)
+
+    tiles = TileCollection([(k, 0, 5) for k in range(len(items))])
+    cache = Fake()
+    raised, ret = None, None
+    try:
+        ret = cache.load_tiles(tiles) if op == 'load' else cache.store_tiles(tiles)
+    except Hard as ex:
+        raised = ex.ident
+    at_return = len(finished)
+    loaded = [t.source for t in tiles]
+    time.sleep(max(delays) * 1.5)
+    return ret, at_return, raised, loaded
+
+
+def run_bulk_io(ctx):
+    rng = ctx.rng
+    cases = []
+    for backend in ('s3', 'azure'):
+        for op in ('load', 'store'):
+            cases.append((backend, op, 4, [('blank', -1), ('ok', 11), ('ok', 12), ('ok', 13)], [0.0, 0.03, 0.03, 0.03]))
+            cases.append((backend, op, 2, [('ok', 10), ('blank', -1), ('ok', 12)], [0.03, 0.0, 0.03]))
+    for c in range(ctx.n(16, 120)):
+        n = rng.choice([1, 2, 3, 4, 6])
+        items = gen_items(rng, n, allow_fail=False)
+        if c % 4 == 0:
+            items[rng.randrange(n)] = ('exc', 1000 + rng.randrange(50))
+        cases.append((rng.choice(['s3', 'azure']), rng.choice(['load', 'store']), rng.choice([1, 2, 4]), items,
+                      [rng.choice([0.0, 0.004, 0.012, 0.03]) for _ in range(n)]))
+    terms, descr = [], []
+    for backend, op, conc, items, delays in cases:
+        st, res = with_timeout(bulk_io_run, (backend, op, items, delays, conc))
+        rep = {'consumer': '%s cache %s_tiles' % (backend, op), 'concurrency': conc, 'tile_outcomes': items, 'delays': delays}
+        if st != 'ok':
+            ctx.fail('consumer=bulk_io,' + ('hang' if st == 'hang' else 'unexpected-exception'),
+                     '%s_tiles did not terminate' % op if st == 'hang' else '%s_tiles raised %r' % (op, res), rep)
+            continue
+        ret, at_return, raised, loaded = res
+        rep.update({'returned': ret, 'calls_finished_at_return': at_return, 'raised': raised, 'tile_sources_afterwards': loaded})
+        ctx.case(('bulk_io', backend, op, conc, tuple(items), tuple(delays)), len(items) > 1, rep)
+        ctx.count('consumer=bulk_io_%s_%s' % (backend, op))
+        fe = spec_first_exc(items)
+        n = len(items)
+        if fe is not None:
+            if raised != fe:
+                ctx.fail('consumer=bulk_io,swallowed', 'a tile access failed with %r, the call raised %r' % (fe, raised), rep)
+            continue
+        if raised is not None:
+            ctx.fail('consumer=bulk_io,spurious-raise', 'raised %r although nothing failed' % raised, rep)
+            continue
+        if at_return != n:
+            ctx.fail('consumer=bulk_io,returned-before-all-results', '%s_tiles returned when %d of %d tile accesses had finished'
+                     % (op, at_return, n), rep)
+        if op == 'load' and bool(ret) != all(k == 'ok' for k, _ in items):
+            ctx.fail('consumer=bulk_io,wrong-result', 'load_tiles returned %r for outcomes %r' % (ret, items), rep)
+        ps = min(4, n) if (backend, op) == ('s3', 'load') else min(conc, n)
+        arrival = sorted(range(n), key=lambda i: (delays[i], i))
+        okall = all(k == 'ok' for k, _ in items) if op == 'load' else None
+        terms.append('(%d%%nat, %s, %s, (%s, %d%%nat))' % (ps, llit(items, vlit), llit(arrival, lambda a: '%d%%nat' % a),
+                                                          'None' if okall is None else ('Some true' if ret else 'Some false'), at_return))
+        descr.append(rep)
+    ctx.corr_check('bulk_io', 'Pool PoolSync', 'nat * list val * list nat * (option bool * nat)', terms,
+                   "fun c => let '(ps, items, arr, out) := c in let r := bulk_io ps items arr 1 in "
+                   "match snd r with Some _ => false | None => Nat.eqb (snd (fst r)) (snd out) && "
+                   "match fst out with Some b => Bool.eqb b (fst (fst r)) | None => true end end", lambda i: descr[i])
 
 
 # ---------------------------------------------------------------- sequences of requests through the real WSGI app
